@@ -141,10 +141,9 @@ func c17sExec(raw json.RawMessage) interface{} {
 	nextID := 0
 	obs := c17sObs{Snaps: []c17sSnap{}}
 	skipped := []int{}
-	snap := func(after int) {
+	observe := func() c17sSnap {
 		ok := c17sWaitSettled()
-		sn := c17sSnap{After: after, Granted: []int{}, SetDone: []int{}, Skipped: skipped, Settled: ok}
-		skipped = []int{}
+		sn := c17sSnap{Granted: []int{}, SetDone: []int{}, Settled: ok}
 		mu.Lock()
 		for k := range granted {
 			sn.Granted = append(sn.Granted, k)
@@ -159,6 +158,22 @@ func c17sExec(raw json.RawMessage) interface{} {
 			}
 		}
 		sn.Cur, sn.Waiters = c17sPeek(s)
+		return sn
+	}
+	snap := func(after int) {
+		// a snapshot is taken only when two consecutive observations (each after its own settling
+		// scan) are identical: nothing moved between the goroutine dump and the reads
+		sn := observe()
+		for tries := 0; tries < 200; tries++ {
+			again := observe()
+			same := reflect.DeepEqual(sn, again)
+			sn = again
+			if same || !sn.Settled {
+				break
+			}
+		}
+		sn.After, sn.Skipped = after, skipped
+		skipped = []int{}
 		obs.Snaps = append(obs.Snaps, sn)
 	}
 	for i, op := range in.Ops {
